@@ -36,20 +36,31 @@ class C14(Check):
             "lengths, OPT in other sections; SVCB/HTTPS with every parameter key x value length 0..34; one record of "
             "every registered type with a valid RDATA cut at every length, zeros of every length, lying RDLENGTH, "
             "extra octets - each through serveDNS (hook, buffer shaped as readTCP/readUDP shape it) and the real "
-            "loops: no panic, handler once iff it decodes, else the invalid callback once and one FORMERR reply. A case is non-trivial unless it is an ignored/none outcome; distinct by hash.")
+            "loops: no panic, handler once iff it decodes, else the invalid callback once and one FORMERR reply. "
+            "Datagrams at the receive-buffer size: for the default Server.UDPSize and configured ones (512, 513, 700, "
+            "1232, 4096, 65535) messages of UDPSize-2 .. UDPSize+2 octets (EDNS0 padding, TXT, unknown-type record) in "
+            "every admission class through the real serveUDP loop on a scripted PacketConn (with and without "
+            "DecorateReader; model cases on the octets received) and over real UDP sockets on 127.0.0.1 both as "
+            "*net.UDPConn and as plain net.PacketConn (control query + Shutdown instead of timing). Handlers that call "
+            "Handle/HandleFunc/HandleRemove on the mux dispatching them (random scripted tables, an independent table "
+            "as oracle, each question a muxserve model case), registrations and further requests while a handler is "
+            "parked, DefaultServeMux through the package-level functions, the same through serveUDP with Handler = mux; "
+            "every call under a 15 s watchdog, a call that does not return is reported with its history. A case is non-trivial unless it is an ignored/none outcome; distinct by hash.")
     partial = [
         "the message decoder (Msg.unpack) is a parameter of the serve model: 'decodes' means what the real Unpack "
         "returns (its safety is property C02); the theorems hold for every decoder",
         "'the server never panics' is proved for the model (serve/mux_match are total, no Panic outcome) and observed "
         "on the implementation under recover() for every generated message; Go-level memory safety is not proved",
-        "concurrent Handle/HandleRemove/ServeDNS (the RWMutex) is observed at run time (4 writers x 4 readers), not "
-        "proved: the model of ServeMux is sequential",
+        "concurrent Handle/HandleRemove/ServeDNS (the RWMutex) is observed at run time (4 writers x 4 readers; handlers "
+        "that change their own mux, registrations and requests while a handler is parked - interleavings forced with "
+        "channels, liveness judged by a 15 s watchdog), not proved: the model of ServeMux is sequential",
         "segmentation of a stream: the model takes the octet stream (read_frames), so independence of the way the "
         "transport cuts it into reads holds by construction in the model and is observed on the implementation by "
         "delivering every history under the segmentations listed in the rule (scripted net.Conn, one segment per "
         "Read call)",
-        "real UDP/TCP sockets: a 10-probe loopback smoke run per transport is runtime observation; the server loops are "
-        "otherwise driven through scripted net.PacketConn/net.Listener objects",
+        "real UDP/TCP sockets: a 10-probe loopback smoke run per transport and the 288 UDPSize-boundary probes (verdicts "
+        "only from events counted after Shutdown, reported when they repeat in three sessions) are runtime observation; "
+        "the server loops are otherwise driven through scripted net.PacketConn/net.Listener objects",
         "DS routing is proved as the code does it (root if registered, else the registered ancestor with the fewest "
         "labels); with three or more nested registered zones this is not the enclosing parent zone: theorem "
         "ds_closest_parent_refuted, known finding C14/Mux/ds-not-closest-parent (docs/C14.md)",
